@@ -27,7 +27,7 @@ ASSUMPTIONS = [
     "own wire-order/alert clause)",
 ]
 NONTRIVIAL = ["cell"]
-DEADLINE = {"quick": 75, "thorough": 1500}
+DEADLINE = {"quick": 150, "thorough": 1500}
 
 QUICK_SC = ["ssl3-rsa", "tls10-dhe_rsa", "tls11-ecdhe_rsa", "tls12-rsa",
             "tls12-ecdhe_ecdsa", "tls12-dhe_dsa", "tls12-srp",
